@@ -325,6 +325,9 @@ def run_sedov(ctx, p):
 def gen_pis(rng, i, tier):
     kw = C.gen_piston(rng, None)
     kw["model"] = ["hypo", "hyperIfin", "hyperFin"][i % 3]
+    if (i // 3) % 8 == 7:
+        # a piston fast enough for the plastic wave to overtake the precursor
+        kw["up"] = kw["c0"] * uni(rng, 0.2, 0.8)
     return dict(kw=kw, f=uni(rng, 0.3, 0.9), xmax=logu(rng, 0.5, 5))
 
 
@@ -334,22 +337,21 @@ def run_pis(ctx, p):
     s = ctx.make(EPpiston, **kw)
     if not (s.up > s.vel_y):
         raise Skip("piston_slower_than_precursor")
-    if not (s.wv_pl < s.wv_el):
-        # overdriven: the plastic wave would overtake the elastic precursor; the documented two-wave
-        # solution does not apply (the solver does not reject it: recorded under C20)
-        raise Skip("overdriven_single_wave")
+    # overdriven (the plastic wave would overtake the elastic precursor): the solver is not rejecting the problem, it
+    # returns one front between the undisturbed and the 'plastic' state - which is judged like any other front
+    over = not (s.wv_pl < s.wv_el)
     xmax = p["xmax"]
-    t = p["f"] * xmax / s.wv_el
+    t = p["f"] * xmax / max(s.wv_el, s.wv_pl)
     dt = 1e-3 * t
     name = "EPpiston"
 
     def call(x, tt):
         return ctx.call(s, np.array([x, xmax]), tt)
     # scan density for the two fronts
-    for wave in ("plastic", "elastic"):
+    for wave in (("overdriven single",) if over else ("plastic", "elastic")):
         def label(sol, wave=wave):
             rho = float(sol["density"][0])
-            return rho > s.rho0 * (1 + 1e-15) if wave == "elastic" else rho > s.rho_y * (1 + 1e-12)
+            return rho > s.rho0 * (1 + 1e-15) if wave != "plastic" else rho > s.rho_y * (1 + 1e-12)
         xs = []
         for tt in (t - dt, t, t + dt):
             f = lambda x: label(call(x, tt))      # noqa: E731
